@@ -899,7 +899,7 @@ _ROW_SEQS = ["ACG", "AC", "ACGT", "A C G", "010", "01", "0{01}1", "0(01)1", "{AG
              ".CG", "?-N", "1.5 2 3", "1 2", "x y z", "ACG\n", "AC\n", "0 1 0"]
 _POSITIONS = ["1", "1-2", "1-3", "2-.", "1-3\\2", "1-3\\0", "1-3/2", "all", "ALL", "0", "4", "9-10", "3-1", "1 2 3",
               "1,2", "-", "1-", "1-x", "foo", ".", "1-3\\", "1 - 2", "", "2-2"]
-_NEWICKS = ["(a,b)", "(a,(b,c))", "(1,2)", "((1,2),3)", "(a:1,b:2):0", "a", "(a,a)", "(a,b", "a,b)", "()", "(,)",
+_NEWICKS = ["(a,b)", "(a,(b,c))", "(1,2)", "((1,2),3)", "(1,(2,zz))", "(a,zz)", "(1,2)", "(a,b)", "(a:1,b:2):0", "a", "(a,a)", "(a,b", "a,b)", "()", "(,)",
             "[&R] (a,b)", "[&U](a,b,c)", "(a,b)[&x=1]", "(a[&x={1,2}],b)", "('q r',b)", "(a,b);(c,d)", ""]
 
 
@@ -923,7 +923,8 @@ def _nexus_statement(draw, block):
                     "MATRIX a ACG b ACG", "CHARSTATELABELS 1 x / a b", "OPTIONS GAPMODE=MISSING"]
     elif block == "TREES":
         pairs = draw(st.lists(st.tuples(st.sampled_from(_W), st.sampled_from(_W)), max_size=3))
-        specific = ["TRANSLATE " + ", ".join("%s %s" % p for p in pairs), "TRANSLATE 1 a, 2 b", "TRANSLATE",
+        specific = ["TRANSLATE " + ", ".join("%s %s" % p for p in pairs), "TRANSLATE 1 a, 2 b", "TRANSLATE 1 a, 2 b",
+                    "TRANSLATE 1 a", "TRANSLATE",
                     "TRANSLATE 1 a 2 b", "TREE %s = %s" % (w(), draw(st.sampled_from(_NEWICKS))),
                     "TREE %s = %s" % (w(), draw(st.sampled_from(_NEWICKS))),
                     "TREE * %s = %s" % (w(), draw(st.sampled_from(_NEWICKS))), "TREE %s %s" % (w(), w()), "TREE",
@@ -991,7 +992,7 @@ def nexus_statement_soups(draw, max_statements=3):
             out += "BEGIN %s;\n" % draw(st.sampled_from(["SETS", "SETS", "ASSUMPTIONS", "CODONS"]))
             out += "".join(stmts("SETS", 1)) + end()
         elif b == "T":
-            out += "BEGIN TREES;\n" + "".join(stmts("TREES", 1)) + end()
+            out += "BEGIN TREES;\n" + "".join(stmts("TREES", 1) + stmts("TREES")[:2]) + end()
         else:
             out += "BEGIN %s;\n" % draw(st.sampled_from(["TAXA", "PAUP", "FOO"])) + "".join(stmts("TAXA")) + end()
     return out
